@@ -86,8 +86,34 @@ def check_program(tag, group, style):
     return out
 
 
+def shadowing(prog):
+    """a rec binder that repeats the name of a parameter of its declaration, of an enclosing rec binder or of a declaration"""
+    main = prog["mods"][prog["main"]]
+    declared = {st["s"] for st in main if st["k"] == "decl"}
+
+    def go(n, bound):
+        if n["k"] == "rec":
+            if n["s"] in bound or n["s"] in declared:
+                return True
+            bound = bound | {n["s"]}
+        return any(go(c, bound) for c in n["a"])
+    return any(go(st["a"][st["n"]], {b["s"] for b in st["a"][:st["n"]]}) for st in main if st["k"] == "decl")
+
+
+def pick_groups(groups, nrun, rng):
+    """a seeded sample that always keeps some members with shadowed binders and some with imports at the end"""
+    if len(groups) <= nrun:
+        return groups
+    sh = [g for g in groups if shadowing(g["prog"])]
+    last = [g for g in groups if g["prog"]["mods"][g["prog"]["main"]][-1]["k"] == "use"]
+    keep = rng.sample(sh, min(len(sh), nrun // 3)) + rng.sample(last, min(len(last), nrun // 6))
+    ids = {id(g) for g in keep}
+    rest = [g for g in groups if id(g) not in ids]
+    return keep + rng.sample(rest, nrun - len(keep))
+
+
 def accepted_groups(tier, chk):
-    cfg = "Resolve_quick.cfg" if tier == "quick" else "Resolve_thorough.cfg"
+    cfg = "Resolve_thorough.cfg"          # the whole Scopes family in both tiers; the tiers differ in how many members are queried
     r = run_tlc("ResolveMC", cfg, workers=8, timeout=1800)
     chk.add_tlc(r)
     if not r.ok:
@@ -111,9 +137,8 @@ def run(tier):
     common.build_bins()
     groups = accepted_groups(tier, chk)
     n_all = len(groups)
-    nrun = 24 if tier == "quick" else 400
-    if len(groups) > nrun:
-        groups = rng.sample(groups, nrun)
+    nrun = 36 if tier == "quick" else 500
+    groups = pick_groups(groups, nrun, rng)
     jobs = [("p%d" % i, g, (i + common.seed()) % 4) for i, g in enumerate(groups)]
     with cf.ThreadPoolExecutor(max_workers=8) as ex:
         results = list(ex.map(lambda j: check_program(*j), jobs))
